@@ -12,9 +12,9 @@ import Qryn.Read.Cursor
     }
     ```
     (`q.MapResult` is nil on the raw-sample path.) One scanned row = one `step`; the index expression
-    `res.Series[len(res.Series)-1]` is an `Option` lookup (`none` = Go panic). The later `ReshuffleSeries`
-    (a no-op unless two fingerprints carry the same label set) and `sort.Slice` (a permutation of the series)
-    are not part of this model; labels are looked up by the series' own `Fp` (`Series.Labels()`). Core-only. -/
+    `res.Series[len(res.Series)-1]` is an `Option` lookup (`none` = Go panic). `ReshuffleSeries` follows
+    below (`reshuffle`); the final `sort.Slice` (a permutation of the series) is not part of this model;
+    labels are looked up by the series' own `Fp` (`Series.Labels()`). Core-only. -/
 namespace Qryn.Read.Assembly
 open Qryn.Read.Cursor
 
@@ -62,6 +62,37 @@ def scan (st : St) : List Row → Option St
 /-- the series handed on by the loop, in scan order (`none` = the loop panicked) -/
 def assemble (rows : List Row) : Option (List Series) :=
   (scan ⟨[], 0⟩ rows).map (·.series)
+
+/-! ## `ReshuffleSeries` (after `fix: a label set stored under two fingerprints …`)
+
+    ```go
+    res := make([]*model.Series, 0, len(series))
+    for _, ent := range series {
+        _fp := cityHash64(join(labels of ent.Fp))          // the key: the label set
+        if chunk, ok := seriesMap[_fp]; ok {
+            chunk.Samples = append(chunk.Samples, ent.Samples...)
+            sort.Slice(chunk.Samples, by TimestampMs)
+        } else { seriesMap[_fp] = ent; res = append(res, ent) }
+    }
+    return res
+    ```
+    `key fp` stands for the label set of a fingerprint (any type with decidable equality). `sort.Slice` is
+    not stable: the model sorts stably, which agrees with Go up to the order of samples with equal
+    timestamps coming from different fingerprints. -/
+
+def sortTs (l : List Sample) : List Sample := l.mergeSort (fun a b => decide (a.ts ≤ b.ts))
+
+def mergeInto {K : Type} [DecidableEq K] (key : Nat → K) (res : List Series) (ent : Series) : List Series :=
+  if res.any (fun s => key s.fp == key ent.fp) then
+    res.map (fun s => if key s.fp = key ent.fp then { s with samples := sortTs (s.samples ++ ent.samples) } else s)
+  else res ++ [ent]
+
+def reshuffle {K : Type} [DecidableEq K] (key : Nat → K) (ss : List Series) : List Series :=
+  ss.foldl (mergeInto key) []
+
+/-- all samples handed out under label set `k` -/
+def samplesOfKey {K : Type} [DecidableEq K] (key : Nat → K) (k : K) (ss : List Series) : List Sample :=
+  (ss.filter (fun s => key s.fp == k)).flatMap (·.samples)
 
 /-- the rows a series stands for -/
 def rowsOf (s : Series) : List Row := s.samples.map (fun x => ⟨s.fp, x.v, x.ts⟩)
